@@ -906,7 +906,8 @@ class APIClient:
                 BluetoothGATTNotifyResponse,
                 timeout,
             )
-        except Exception:
+        except (Exception, asyncio.CancelledError):
+            # Also remove the callback if we are cancelled while waiting
             remove_callback()
             raise
 
